@@ -188,6 +188,6 @@ func TestC04_Aligned(t *testing.T) {
 				c.Label(fmt.Sprintf("aligned-at-k=%d", (a+2)/chunkSize))
 			}
 		}
-		checkLog(rt, c, &ss, b, sparseCuts(b, extra))
+		checkLog(rt, c, &ss, b, sparseCuts(b, extra), nil)
 	})
 }
